@@ -1597,7 +1597,7 @@ class Fxp():
 
         _val = self.val
         if _val.dtype != object and not np.iscomplexobj(_val) and self.n_word + n >= _n_word_max:
-            _val = _val.astype(object)      # (the shifted code may not fit in int64: Python integers)
+            _val = np.asarray(_val).astype(object)      # (the shifted code may not fit in int64: Python integers; an element x[i] holds a NumPy scalar)
 
         y = Fxp(None, signed=self.signed, n_word=n_word, n_frac=self.n_frac)
         y.set_val(_val << np.array(n, dtype=_val.dtype), raw=True, vdtype=self.vdtype)   # set raw val shifted
